@@ -77,5 +77,7 @@ def wire_summary(w, sock_id=0):
             b0 = b0 if isinstance(b0, int) else 'sym'
             # the length of a Close frame depends on message text (symbolic values are formatted as
             # placeholders in the exploration), so only its first byte is compared
-            out.append([b0, len(it) if b0 != 0x88 else 'close'])
+            # ... and the length of a deflated frame (RSV1) depends on the codec (abstract in the exploration, real zlib in the replay)
+            size = 'close' if b0 == 0x88 else ('deflated' if isinstance(b0, int) and b0 & 0x40 else len(it))
+            out.append([b0, size])
     return out
